@@ -157,9 +157,7 @@ PRELUDE = r"""
 (define-fun vs_first ((s VSet)) Val (ite (= (vs_n s) 0) VNone (select (vs_rep s) (vs_firstkey s))))
 ; well-formedness of a set value (holds for vs_empty and is preserved by vs_add)
 (define-fun vs_wf ((s VSet)) Bool (and (>= (vs_n s) 0)
-   (= (= (vs_n s) 0) (= (vs_has s) ((as const (Array Val Bool)) false)))
-   (=> (> (vs_n s) 0) (select (vs_has s) (vs_firstkey s)))
-   (=> (= (vs_n s) 1) (= (vs_has s) (store ((as const (Array Val Bool)) false) (vs_firstkey s) true)))))
+   (= (= (vs_n s) 0) (= (vs_has s) ((as const (Array Val Bool)) false)))))
 ; canonical key of a record (what ProvRecord.__eq__/__hash__ look at): type, identifier URI, attribute pairs
 (declare-datatypes ((Tup_Str_Val 0)) (((mk_Tup_Str_Val (Tup_Str_Val_0 String) (Tup_Str_Val_1 Val)))))
 (declare-datatypes ((RKey 0)) (((mkRKey (rk_type Opt_QN) (rk_id Opt_Str) (rk_attrs (Array Tup_Str_Val Bool))))))
